@@ -12,6 +12,8 @@ import (
 	"strconv"
 	"strings"
 	"time"
+
+	"golang.org/x/tools/go/ssa"
 )
 
 type KnownFinding struct {
@@ -444,6 +446,25 @@ func writeEvidence(s *Session, pr *propRun, tier string, seed, discharged, viola
 	for _, e := range pr.explicit {
 		assumptions = append(assumptions, "explicit assumption (assume_after) "+e)
 	}
+	// trusted postconditions of own functions (assumed at call sites, never proved)
+	for _, n := range sortedKeys(pr.usedCt) {
+		if ct := s.g.spec.Contracts[n]; ct != nil && !ct.External {
+			for _, c := range ct.TrustedEns {
+				assumptions = append(assumptions, "trusted postcondition of package-main function "+n+" (assumed at its call sites, NOT proved): "+c.Expr+" ("+c.Line+")")
+			}
+		}
+	}
+	// preconditions of functions under contract that no call site in package main establishes (function literals handed
+	// to a library, cobra Run closures, exported entry points that only tests call): assumed at entry
+	for _, n := range pr.functions {
+		ct := s.g.spec.Contracts[n]
+		if ct == nil || len(ct.Requires) == 0 || s.hasStaticCaller(n) {
+			continue
+		}
+		for _, c := range ct.Requires {
+			assumptions = append(assumptions, "precondition of "+n+" assumed at entry (no call site in package main establishes it): "+c.Label+": "+c.Expr+" ("+c.Line+")")
+		}
+	}
 	assumptions = append(assumptions, propAssumptions[pr.prop]...)
 	assumptions = append(assumptions,
 		"partial correctness only: termination and stack depth are not proved",
@@ -485,7 +506,67 @@ func writeEvidence(s *Session, pr *propRun, tier string, seed, discharged, viola
 }
 
 // propAssumptions: the assumption-register entries (DESIGN.md section 4.5) each property relies on.
-var propAssumptions = map[string][]string{}
+var propAssumptions = func() map[string][]string {
+	const (
+		own   = "OWN (assumed, not proved): a container is not accessed through an old name after it was handed to a walker, and array cells written in one loop iteration are not touched by later iterations' callees; this makes the atoms RelQ / RelA / RelS / RelC / RelN / Rendered / MapText / Parsed time-independent and carries per-iteration clauses to 'for all elements'"
+		tree  = "A-TREE (assumed): JSON trees and operator tables are acyclic (hgtM(child) < hgtM(parent)); a parsed tree holds no reference to an operator table (parseValue allocates every node: its fresh-map postcondition is proved)"
+		heap  = "HEAP-CLOSED (assumed at function entry): references stored in the heap refer to existing cells; VAL-INV: an interface value never holds a typed-nil map pointer (obligation at every MakeInterface of a map pointer, assumed at every type test)"
+		om    = "A-OM (assumed contract of github.com/elliotchance/orderedmap/v3): Set appends or overwrites in place, Get, Front/Next iterate in insertion order; thorough tier runs a bounded differential of the model against the library"
+		js    = "A-JSON (assumed): Decoder.Token/More tokenise as documented (UseNumber => json.Number); json.Marshal of a scalar is its compact one-line JSON text; 0 round-trips"
+		lem   = "bridging lemmas L-clean / L-shape / L-ni / L-fix (relations => property over whole trees, by induction over the relations) are paper arguments in DESIGN.md, not mechanised"
+		det   = "A-DET: getOp is a function of key-path content and search flag (trusted postcondition; supported by the frame back end)"
+		scan  = "A-SCAN / A-FMT / A-BUF (assumed): bufio.Scanner splits lines and reports read errors through Err; gzip damage surfaces as a read error; fmt.Fprintln returns the writer's error; a *bufio.Writer hands data to the wrapped writer at Flush"
+		str   = "A-STR / A-RE (assumed): strings.Split / SplitN / Join / TrimLeft / TrimSpace / Replace / Index / LastIndex and regexp behave as their named spec functions; string contents are otherwise abstract"
+		tink  = "A-TINK / A-B64 (assumed, cryptographic): AES-SIV (Tink DAEAD) is deterministic, decrypts what it encrypted and fails under another key or on altered input; base64 round-trips"
+		sha   = "A-SHA (assumed): SHA-256 is a function; collision freedom of the 64 bits kept is NOT decided"
+		osfs  = "A-OS / A-RM / A-COPY (assumed): ghost file system for Stat / ReadFile / WriteFile / Create / CreateTemp / Remove; io.Copy appends exactly the reader's bytes on success"
+		httpA = "A-HTTP (assumed): http.Client.Do performs one request and delivers the body; what digest.Transport does with Password is the dependency's contract"
+		cobra = "A-COBRA (assumed): flag cells are bound to the variables the closures read; os.Stdin.Stat"
+	)
+	walker := []string{own, tree, heap, om, js, lem, det}
+	m := map[string][]string{}
+	for _, p := range []string{"C01", "C02", "C03", "C04", "C05", "C12", "C14", "C15", "C19"} {
+		m[p] = append([]string{}, walker...)
+	}
+	m["C15"] = append(m["C15"], str, sha)
+	m["C12"] = append(m["C12"], str, sha)
+	m["C02"] = append(m["C02"], tink)
+	m["C06"] = []string{own, tree, heap, om, js, scan}
+	m["C07"] = []string{tree, heap, om, js, str}
+	m["C08"] = []string{scan, osfs}
+	m["C09"] = []string{tink}
+	m["C10"] = []string{tink}
+	m["C11"] = []string{osfs, tink}
+	m["C13"] = []string{str, sha}
+	m["C16"] = []string{httpA, osfs}
+	m["C17"] = []string{osfs, httpA}
+	m["C18"] = []string{cobra, osfs, httpA}
+	m["C20"] = []string{httpA}
+	return m
+}()
+
+// hasStaticCaller: some function of package main calls fn statically (so its preconditions are call-site obligations there).
+func (s *Session) hasStaticCaller(name string) bool {
+	target := s.fns[name]
+	if target == nil {
+		return true
+	}
+	for _, f := range s.fns {
+		if f == target && !isRecursive(f) {
+			continue
+		}
+		for _, b := range f.Blocks {
+			for _, in := range b.Instrs {
+				if c, ok := in.(ssa.CallInstruction); ok {
+					if c.Common().StaticCallee() == target && f != target {
+						return true
+					}
+				}
+			}
+		}
+	}
+	return false
+}
 
 func cmdLock(jobs int) int {
 	s, err := loadSession()
